@@ -1,12 +1,4 @@
 From Coq Require Import NArith List.
-From KT Require Import Gen.Generated Gen.Alphabet Model.Kmer Proof.MinAbs Proof.MinSpec Proof.MinConc.
+From KT Require Import Extract.Dispatch.
 Require Import ExtrOcamlBasic.
-(* the model follows the table found in the code; the spec follows the alphabet of the property *)
-Definition nt4 : N -> N := nt4_of table_kmer.
-Definition m_kg (k : nat) (s : list N) := kg_run nt4 k s.
-Definition s_kg (k : nat) (s : list N) := spec_kmers digit_of_letter k s.
-Definition first_bad_kmer_table := table_first_bad table_kmer.
-Definition nt4m : N -> N := nt4_of table_minimiser.
-Definition m_mg (w m : nat) (s : list N) := mg_run nt4m w m s.
-Definition s_mg (w m : nat) (s : list N) := grp_go digit_of_letter w m None nil s.
-Extraction "model.ml" m_kg s_kg first_bad_kmer_table m_mg s_mg.
+Extraction "model.ml" dispatch.
